@@ -29,7 +29,7 @@ CXX := clang++
 CXXFLAGS := -std=c++14 -O1 -g1 -gdwarf-4 -fsanitize-coverage=trace-pc-guard,trace-loads,trace-stores -w
 # the harness itself is not instrumented (only libtins is scheduled and monitored)
 ENGCXXFLAGS := -std=c++14 -O1 -g1 -gdwarf-4 -w
-LDFLAGS := -Wl,--wrap=__cxa_guard_acquire -Wl,--wrap=__cxa_guard_release -Wl,--wrap=__cxa_guard_abort $(foreach f,inet_ntoa localtime gmtime ctime asctime strtok rand strerror gethostbyname ether_ntoa getservbyname setlocale HMAC SHA1 MD5,-Wl,--wrap=$(f))
+LDFLAGS := -Wl,--wrap=__cxa_guard_acquire -Wl,--wrap=__cxa_guard_release -Wl,--wrap=__cxa_guard_abort $(foreach f,inet_ntoa localtime gmtime ctime asctime strtok rand strerror gethostbyname ether_ntoa getservbyname setlocale HMAC SHA1 MD5 memcpy memmove memset strcpy strncpy snprintf vsnprintf sprintf,-Wl,--wrap=$(f))
 endif
 ifeq ($(BUILD),cov)
 # line coverage of /repo/src per engine (tools/coverage.sh); not used by any registered check
